@@ -85,7 +85,11 @@ def check_case(case, ctx):
             argv = ["colander", src, "-v"] + variables + (["-l", str(limit)] if limit is not None else []) + ["-o", out]
             common.run_main(cli.main, argv)
         else:
-            c = qcall(Colander, src, limit_level=limit, output=out, variables=variables)
+            # (the names arrive as a list or, one time in three, as a tuple)
+            as_tuple = (len(variables) + (limit or 0)) % 3 == 0
+            if as_tuple:
+                ctx.label("variables-as-tuple")
+            c = qcall(Colander, src, limit_level=limit, output=out, variables=tuple(variables) if as_tuple else variables)
             qcall(c.strain)
     except Exception as e:
         return [f"colander raised {type(e).__name__}: {e} (via {case.get('how', 'api')})"]
